@@ -121,27 +121,27 @@ def step (s : St) (line : String) : St × String :=
   | ["C", n] => ({ s with consts := hex? n :: s.consts }, "ok")
   | ["N", pkg, pth, same] => ({ s with incs := (hex? pkg, hex? pth, flag same) :: s.incs }, "ok")
   | "Q" :: qs => ({ s with quals := qs.map hex? }, "ok")
-  | ["QO"] =>
+  | "QO" :: _ =>
     match s.scope with
     | .error e => (s, errStr e)
     | .ok _ => (s, "ok")
-  | ["QG"] =>
+  | "QG" :: _ =>
     match s.scope with
     | .error e => (s, errStr e)
     | .ok sc => (s, "globals " ++ ",".intercalate (sortStrs (ascs (fileGlobals s.ft sc))))
-  | ["QT"] =>
+  | "QT" :: _ =>
     match s.scope with
     | .error e => (s, errStr e)
     | .ok sc =>
       let ls := sc.structs.map (structLine s.ft false) ++ sc.services.flatMap (svcTypeLines s.ft s.bases)
       (s, "types " ++ ";".intercalate (sortStrs ls))
-  | ["QP"] =>
+  | "QP" :: _ =>
     match s.scope with
     | .error e => (s, errStr e)
     | .ok sc =>
       let ls := sc.services.flatMap fun v => v.fns.map fun f => asc v.goName ++ "." ++ asc f.goName ++ "=" ++ ",".intercalate (ascs f.params)
       (s, "params " ++ ";".intercalate (sortStrs ls))
-  | ["QI"] => (s, importLines s)
+  | "QI" :: _ => (s, importLines s)
   | [] => (s, "")
   | _ => (s, "bad-op")
 
